@@ -3,15 +3,15 @@
 package plugin
 
 import (
-	"syscall"
-	"os"
-	"net"
 	"encoding/json"
 	"errors"
 	"fmt"
+	"net"
 	"net/netip"
+	"os"
 	"reflect"
 	"sort"
+	"syscall"
 	"testing"
 	"time"
 
